@@ -60,7 +60,7 @@ class TakeLast(Blockwise):
             if a.ndim == 1 and (a.empty or a.isna().all()):
                 return None
             a = a.ffill()
-        return a.tail(n=1).squeeze()
+        return a.tail(n=1).squeeze(axis=0)
 
 
 class CumulativeFinalize(Expr):
